@@ -503,7 +503,8 @@ class RefDriver(_Base):
         c = self.cache
         m = self.model
         queried = ()
-        if m.open and k not in ("gen_open", "gen_next", "gen_close"):
+        if m.open and (k not in ("gen_next", "gen_close") or len(m.open) > 1):
+            # something else runs while a get_references generator is suspended
             self.ctx = "interleaved-" + m.tier
             self.count("probe.op_while_generator_suspended")
         if k == "retarget":
@@ -644,7 +645,8 @@ class RefDriver(_Base):
         except Exception as e:  # noqa: BLE001
             if self.pending is not None:
                 raise self.pending from None
-            self.fail("wrong-error", {"what": "leaving the ReferenceCache context", "expected": "no error", "got": _exc_str(e)}, kind="exit")
+            self.cur = {"k": "raise" if self.injected is not None else "exit"}
+            self.fail("wrong-error", {"what": "leaving the ReferenceCache context", "expected": "no error", "got": _exc_str(e)}, got=type(e).__name__)
         if self.injected is not None and out is not self.injected:
             self.fail("wrong-error", {"what": "the body's exception did not propagate out of the context"}, kind="raise")
         self.model.apply({"k": "exit"})
@@ -687,7 +689,7 @@ def _gen_refcache(r, params):
         symbols.append({"ref": ref, "e": r.random() < 0.35})
     x = r.random()
     p_dis = params.get("interleave_disjoint_p", 0.2)
-    p_conv = params.get("interleave_convert_p", 0.1)
+    p_conv = 0.0 if params.get("_avoid") else params.get("interleave_convert_p", 0.3)
     tier = "convert" if x < p_conv else ("disjoint" if x < p_conv + p_dis else "none")
     setup = {"blocks": kinds, "symbols": symbols, "interleave": tier}
     m = RefModel(setup)
@@ -1870,6 +1872,7 @@ def _gen_offsetmap(r, params):
 
     setup = {"elems": elems, "held": held, "init": items() if r.random() < 0.4 else [], "init_form": r.choice(["dict", "pairs"])}
     ops = []
+    bad_pick = [i for i in OM_BAD_PICK if not (params.get("_avoid") and isinstance(OM_BAD[i], tuple))]
     for _ in range(r.randint(3, params.get("max_ops", MAX_OPS))):
         x = r.random()
         if x < 0.22:
@@ -1877,7 +1880,7 @@ def _gen_offsetmap(r, params):
             if kk[0] == "off":
                 op = {"k": "set", "key": kk, "v": r.randrange(10)}
             elif r.random() < 0.15:
-                op = {"k": "set_bad", "key": kk, "bad": r.choice(OM_BAD_PICK)}
+                op = {"k": "set_bad", "key": kk, "bad": r.choice(bad_pick)}
             else:
                 op = {"k": "set", "key": kk, "slot": r.randrange(3)}
         elif x < 0.30:
@@ -1903,7 +1906,7 @@ def _gen_offsetmap(r, params):
             if kk[0] == "off":
                 op = {"k": "setdefault", "key": kk, "v": r.randrange(10)}
             elif r.random() < 0.15:
-                op = {"k": "setdefault_bad", "key": kk, "bad": r.choice(OM_BAD_PICK)}
+                op = {"k": "setdefault_bad", "key": kk, "bad": r.choice(bad_pick)}
             else:
                 op = {"k": "setdefault", "key": kk, "slot": r.randrange(3)}
         elif x < 0.94:
@@ -2160,6 +2163,10 @@ def run(prop, seed, params):
         weights = {params["machine"]: 1}
     names = sorted(weights)
     machine = streams.get("gen.machine").choices(names, [weights[n] for n in names])[0]
+    # steer most runs away from the triggers of the findings already reported
+    # for this engine (tuple as a non-mapping value, converting operations
+    # under a suspended generator) so that they cannot hide neighbours
+    params["_avoid"] = streams.get("gen.avoid").random() < params.get("avoid_known_p", 0.8)
     setup, ops = GENERATORS[machine](streams.get("gen.history"), params)
     scenario = {"engine": "ctsim", "seed": seed, "sigma": sigma, "machine": machine, "setup": setup, "ops": ops[:MAX_OPS]}
     return scenario, execute(prop, scenario, params)
